@@ -141,3 +141,39 @@ Definition top_view (p : profile) (st : gstate) : option (string * list (Z * Z))
                                    if f =? 0 then [] else [(a, f)]) acc)
       end
   end.
+
+(* ---------------- Java heapz / contentionz as observed with pprof -traces ----------------
+   The Java legacy formats carry their own symbol table, so the drop/keep-frame tables that
+   addLegacyFrameInfo attaches are APPLIED by the driver (fetchProfiles -> RemoveUninteresting ->
+   Prune) before anything is shown.  Document: records "A B @ addrs", a location table addr -> name;
+   [droppable name] is the answer of the drop/keep regular expressions (supplied by the harness from
+   the real tables; names are chosen so that simplifyFunc is the identity).
+   Prune, per sample, scanning from the root: frames up to and including the first user frame are
+   kept; the first droppable frame after it is removed together with everything leaf-ward of it. *)
+Record jrec := { jr_a : string; jr_b : string; jr_addrs : list string }.
+Record jdoc := { jd_contention : bool; jd_period : string; jd_recs : list jrec; jd_locs : list (string * string) }.
+
+Fixpoint prune_root_first (droppable : string -> bool) (rl : list string) (found : bool) (acc : list string) : list string :=
+  match rl with
+  | [] => rev acc
+  | x :: r => if droppable x then (if found then rev acc else prune_root_first droppable r found (x :: acc))
+              else prune_root_first droppable r true (x :: acc)
+  end.
+(* leaf-first in, leaf-first out *)
+Definition prune_stack (droppable : string -> bool) (names : list string) : list string :=
+  rev (prune_root_first droppable (rev names) false []).
+
+Definition jname (d : jdoc) (addr : string) : string :=
+  match find (fun e => hex_val (fst e) =? hex_val addr) (jd_locs d) with Some e => snd e | None => "?"%string end.
+
+(* one trace per record with a non-empty stack: the shown value (contention: the delay column = first number x
+   period; heap: unsampled, not compared: 0) and the frame names after pruning *)
+Definition java_traces (droppable : string -> bool) (d : jdoc) : list (Z * list string) :=
+  flat_map (fun r =>
+    match prune_stack droppable (map (jname d) (jr_addrs r)) with
+    | [] => []
+    | st => [((if jd_contention d
+               then (let p := if nonempty (jd_period d) then dec_val (jd_period d) else 0 in
+                     if p =? 0 then dec_val (jr_a r) else wrap_i64 (dec_val (jr_a r) * p))
+               else 0), st)]
+    end) (jd_recs d).
